@@ -246,6 +246,35 @@ func c14Run(ctx *core.Ctx) {
 			}
 		}
 	}
+	// longer strings (a word-at-a-time scanner and its scalar tail): every byte value at every position of an
+	// 18-byte string of plain characters, and pairs of special bytes in different 8-byte blocks
+	var longStrings []string
+	for b := 0; b < 256; b++ {
+		for p := 0; p < 18; p++ {
+			longStrings = append(longStrings, strings.Repeat("a", p)+string([]byte{byte(b)})+strings.Repeat("a", 17-p))
+		}
+	}
+	for _, x := range risk {
+		for _, y := range risk {
+			longStrings = append(longStrings, "aaa"+string([]byte{x})+"aaaaaaaa"+string([]byte{y})+"aaaaa", string([]byte{x})+strings.Repeat("b", 14)+string([]byte{y}))
+		}
+	}
+	for _, kind := range []model.Kind{model.String, model.Enum} {
+		for _, s := range longStrings {
+			if !ctx.Mine() {
+				continue
+			}
+			f := strFrame(kind, 3)
+			exec(jsonCase{Frame: f, Shape: int(ctx.Index() % int64(model.NShapes)), StrHex: []string{hexOf(s), "null", hexOf("x" + s)}}, "long-strings/"+string(kind))
+		}
+	}
+	for _, s := range longStrings {
+		if !checkNameOK(s) || !ctx.Mine() {
+			continue
+		}
+		f := model.Frame{N: 2, Cols: []model.Col{{Name: "n", Kind: model.Int, Cells: []model.Cell{model.I(1), model.I(2)}}, {Name: "z", Kind: model.Bool, Cells: []model.Cell{model.B(true), model.B(false)}}}}
+		exec(jsonCase{Frame: f, Shape: 0, NameHex: hexOf(s)}, "long-names")
+	}
 	// names
 	for _, s := range byteStrings {
 		if !checkNameOK(s) || s == "z" {
@@ -311,7 +340,7 @@ func init() {
 	core.Register(&core.Check{
 		ID:    "C14",
 		Level: "model_checking",
-		Rule: "case = (frame, index shape). String and enum cells and column names over EVERY single byte 0x00-0xFF as a one-byte string, every 2- and 3-byte (thorough: 4-byte) combination of a 12-byte risk alphabet (quote, backslash, slash, NUL, 0x1f, 0x7f, 0x80, 0xc2, 0xe2, 0xff, a, LF), U+2028/2029 and neighbours, 2-4 byte runes, truncated/overlong/surrogate sequences; floats from structured families (every exponent x 4 mantissas x signs, small decimals, powers of ten with neighbours) plus NaN; integer extremes; zero rows; zero columns; an output-size sweep (every row count 1..700, paddings 0..60: output sizes across 4 KiB and 8 KiB at every alignment). " +
+		Rule: "case = (frame, index shape). String and enum cells and column names over EVERY single byte 0x00-0xFF as a one-byte string, every 2- and 3-byte (thorough: 4-byte) combination of a 12-byte risk alphabet (quote, backslash, slash, NUL, 0x1f, 0x7f, 0x80, 0xc2, 0xe2, 0xff, a, LF), every byte value at every position of an 18-byte string (cells and names), U+2028/2029 and neighbours, 2-4 byte runes, truncated/overlong/surrogate sequences; floats from structured families (every exponent x 4 mantissas x signs, small decimals, powers of ten with neighbours) plus NaN; integer extremes; zero rows; zero columns; an output-size sweep (every row count 1..700, paddings 0..60: output sizes across 4 KiB and 8 KiB at every alignment). " +
 			"Oracles: json.Valid; token stream = one object per row in row order with keys in column order and values equal to the cells (invalid bytes as U+FFFD, NaN/null as null, floats bit-identical after ParseFloat); ReadJSON(output, ColumnOrder, Enums) reproduces the frame (ints as equal floats) for valid UTF-8 and NaN-free floats. All cases non-trivial; distinct by content.",
 		Assumptions: []string{
 			"encoding/json's tokenizer is the JSON reference",
